@@ -51,9 +51,70 @@ const T0: i64 = 1_000_000_000;
 // --------------------------------------------------------------------------------------- tree
 
 pub const SLOTS: [&str; 9] = ["a.typ", "b.typ", "sub/c.typ", "sub/deep/d.typ", ".h.typ", ".hid/e.typ", "sub/.hid/f.typ", "n.txt", "dir.typ/g.typ"];
+/// Slots whose file is made immutable (chattr +i) after it has been written: readable, but every
+/// attempt to write, truncate, replace or rename it fails - the write fault of the model (the
+/// sandbox runs as root, so permission bits would not stop a write).
+pub const RO_SLOTS: [&str; 2] = ["ro_a.typ", "sub/ro_c.typ"];
 const LINK: &str = "l.typ"; // symlink slot
 /// targets a symlink may point to: an eligible file, a file in a hidden directory, a wrong extension
 const LINK_TARGETS: [&str; 3] = ["a.typ", ".hid/e.typ", "n.txt"];
+
+fn locked(slot: &str) -> bool {
+    slot.rsplit('/').next().is_some_and(|n| n.starts_with("ro_"))
+}
+
+const FS_IOC_GETFLAGS: libc::c_ulong = 0x8008_6601;
+const FS_IOC_SETFLAGS: libc::c_ulong = 0x4008_6602;
+const FS_IMMUTABLE_FL: libc::c_int = 0x10;
+
+/// Set or clear the immutable attribute of a file. Returns false if the file system refuses.
+fn set_immutable(path: &Path, on: bool) -> bool {
+    use std::os::unix::io::AsRawFd;
+    let Ok(f) = std::fs::File::open(path) else { return false };
+    let mut flags: libc::c_int = 0;
+    // SAFETY: plain ioctl on an open descriptor with a pointer to a live c_int
+    unsafe {
+        if libc::ioctl(f.as_raw_fd(), FS_IOC_GETFLAGS as _, &mut flags) != 0 {
+            return false;
+        }
+        let want = if on { flags | FS_IMMUTABLE_FL } else { flags & !FS_IMMUTABLE_FL };
+        if want == flags {
+            return true;
+        }
+        libc::ioctl(f.as_raw_fd(), FS_IOC_SETFLAGS as _, &want) == 0
+    }
+}
+
+/// Clear the immutable attribute of every write-fault file below `dir` (before the directory is removed).
+fn unlock_all(dir: &Path) {
+    if let Ok(rd) = std::fs::read_dir(dir) {
+        for e in rd.flatten() {
+            let p = e.path();
+            match e.file_type() {
+                Ok(ft) if ft.is_dir() => unlock_all(&p),
+                Ok(ft) if ft.is_file() && locked(&e.file_name().to_string_lossy()) => {
+                    set_immutable(&p, false);
+                }
+                _ => {}
+            }
+        }
+    }
+}
+
+/// Does the sandbox file system support the immutable attribute (so that write faults can be injected)?
+pub fn write_faults_supported() -> bool {
+    static OK: std::sync::OnceLock<bool> = std::sync::OnceLock::new();
+    *OK.get_or_init(|| {
+        let p = Path::new(sandbox_root()).join(format!("probe-{}", std::process::id()));
+        if std::fs::write(&p, b"x").is_err() {
+            return false;
+        }
+        let ok = set_immutable(&p, true) && std::fs::write(&p, b"y").is_err();
+        set_immutable(&p, false);
+        let _ = std::fs::remove_file(&p);
+        ok
+    })
+}
 
 #[derive(Clone, Debug, PartialEq, Eq, Hash, PartialOrd, Ord)]
 pub enum Entry {
@@ -270,6 +331,8 @@ pub fn expected(tree: &Tree, inv: &Invocation) -> Expected {
                             changed = true;
                             if check {
                                 forbidden.push(out);
+                            } else if locked(&slot) {
+                                io_error = true; // the write fails; the file keeps its bytes
                             } else {
                                 t.insert(slot, Entry::File(out));
                             }
@@ -304,6 +367,8 @@ pub fn expected(tree: &Tree, inv: &Invocation) -> Expected {
                             changed = true;
                             if check {
                                 forbidden.push(out);
+                            } else if locked(&slot) {
+                                io_error = true; // the write fails; the file keeps its bytes
                             } else {
                                 t.insert(slot, Entry::File(out));
                             }
@@ -338,6 +403,7 @@ fn sandbox_dir() -> PathBuf {
 }
 
 fn materialise(root: &Path, tree: &Tree, reverse: bool) {
+    unlock_all(root);
     let _ = std::fs::remove_dir_all(root);
     std::fs::create_dir_all(root).unwrap();
     let mut entries: Vec<(&String, &Entry)> = tree.iter().collect();
@@ -353,6 +419,9 @@ fn materialise(root: &Path, tree: &Tree, reverse: bool) {
             Entry::File(b) => {
                 std::fs::write(&p, b).unwrap();
                 filetime::set_file_mtime(&p, FileTime::from_unix_time(T0, 0)).unwrap();
+                if locked(slot) {
+                    assert!(set_immutable(&p, true), "MACHINERY: cannot make {} immutable", p.display());
+                }
             }
             Entry::Link(target) => {
                 std::os::unix::fs::symlink(target, &p).unwrap();
@@ -611,6 +680,13 @@ impl Model for CliModel {
         for t in LINK_TARGETS {
             entries.push((LINK.to_string(), Entry::Link(t.to_string())));
         }
+        // write faults: a readable file that cannot be written (needs formatting / already formatted)
+        if write_faults_supported() {
+            for s in RO_SLOTS {
+                entries.push((s.to_string(), Entry::File(U0.to_vec())));
+            }
+            entries.push((RO_SLOTS[0].to_string(), Entry::File(f0.clone())));
+        }
         let full = if self.thorough { 3 } else { 2 };
         let mut res: Vec<Tree> = vec![];
         fn rec(entries: &[(String, Entry)], start: usize, left: usize, cur: &mut Tree, res: &mut Vec<Tree>) {
@@ -809,7 +885,7 @@ fn kind_of(tree: &Tree, path: &str, style: Style) -> String {
         },
     };
     let link = if matches!(tree.get(path), Some(Entry::Link(_))) { "link:" } else { "" };
-    format!("{link}{k}{}", if hiddenp { "(hidden)" } else { "" })
+    format!("{link}{k}{}{}", if hiddenp { "(hidden)" } else { "" }, if locked(path) { "(unwritable)" } else { "" })
 }
 
 fn shape_of(inv: &Invocation) -> String {
@@ -904,6 +980,7 @@ pub fn run_explore(property: &'static str, tier: &str, seed: u64) -> i32 {
     if let Ok(rd) = std::fs::read_dir(sandbox_root()) {
         for e in rd.flatten() {
             if e.file_name().to_string_lossy().starts_with(&format!("{}-", std::process::id())) {
+                unlock_all(&e.path());
                 let _ = std::fs::remove_dir_all(e.path());
             }
         }
@@ -919,7 +996,7 @@ pub fn run_explore(property: &'static str, tier: &str, seed: u64) -> i32 {
         evaluations: transitions,
         distinct_nontrivial: unique.saturating_sub(1),
         rule: format!(
-            "stateright BFS over abstract file trees (9 slots incl. hidden files/directories, a directory with the .typ extension, a wrong extension, plus a symlink; contents: unformatted, formatted-but-option-sensitive, erroneous, invalid UTF-8{}); initial states: all trees with <= {} entries over all kinds plus all trees with one more entry over the two plain kinds; actions: {} with every ordered list of <= 3 entries of the tree (incl. a missing path and a directory given as a file), format-all with 9 directory spellings, {}style options, -q/-v; every transition materialises the tree, runs the real binary and is compared with the reference model (exit status, bytes, mtimes, stdout); depth bound {}. Non-trivial = every unique non-empty tree",
+            "stateright BFS over abstract file trees (9 slots incl. hidden files/directories, a directory with the .typ extension, a wrong extension, plus a symlink and two files that can be read but not written; contents: unformatted, formatted-but-option-sensitive, erroneous, invalid UTF-8{}); initial states: all trees with <= {} entries over all kinds plus all trees with one more entry over the two plain kinds; actions: {} with every ordered list of <= 3 entries of the tree (incl. a missing path and a directory given as a file), format-all with 9 directory spellings, {}style options, -q/-v; every transition materialises the tree, runs the real binary and is compared with the reference model (exit status, bytes, mtimes, stdout); depth bound {}. Non-trivial = every unique non-empty tree",
             if thorough { ", tab-sensitive, import-order-sensitive, no trailing newline" } else { "" },
             if thorough { 3 } else { 2 },
             if property == "C14" { "--check FILES" } else { "-i FILES" },
@@ -943,6 +1020,11 @@ pub fn run_explore(property: &'static str, tier: &str, seed: u64) -> i32 {
         coverage: cov,
         assumptions: vec![
             "the sandbox runs as root, so permission bits cannot make a file unreadable: invalid UTF-8, a missing path, a directory given as a file and a dangling symlink stand in for 'unreadable'".into(),
+            if write_faults_supported() {
+                "write faults: the files ro_a.typ and sub/ro_c.typ carry the immutable attribute (chattr +i on the sandbox file system), so reading succeeds and every write fails".into()
+            } else {
+                "write faults NOT explored: the sandbox file system does not support the immutable attribute".into()
+            },
             "format-all on a directory that does not exist is not explored (the statement does not say what it must do)".into(),
             "the reference model formats with typstyle_core linked into the harness (same working tree as the CLI binary)".into(),
         ],
